@@ -122,7 +122,11 @@ func (se *SpecEnv) eval(e ast.Expr) Value {
 		return se.deref(se.eval(x.X))
 	case *ast.BinaryExpr:
 		if x.Op == token.LAND {
-			return F.And(se.eval(x.X).(*Term), se.eval(x.Y).(*Term))
+			l := se.eval(x.X).(*Term)
+			if l.IsFalse() {
+				return l // the right operand need not be well-formed when the left one is false (called(F) && ... resultof_F ...)
+			}
+			return F.And(l, se.eval(x.Y).(*Term))
 		}
 		if x.Op == token.LOR {
 			return F.Or(se.eval(x.X).(*Term), se.eval(x.Y).(*Term))
@@ -667,6 +671,13 @@ func (se *SpecEnv) callSpec(c *ast.CallExpr) Value {
 			return nil
 		}
 		return rec(arg(0))
+	case "called": // called(F): the callee F has been called on this path (resultof_F is bound)
+		id, isId := c.Args[0].(*ast.Ident)
+		if !isId {
+			unsup("called(<callee>)")
+		}
+		_, bound := se.state().srcVar["resultof_"+id.Name]
+		return F.Bool(bound)
 	case "cur": // cur(x): the current value of the source variable x (a parameter name alone denotes its entry value)
 		id, isId := c.Args[0].(*ast.Ident)
 		if !isId {
